@@ -93,6 +93,9 @@ def run_ops(model, objs, ops):
         elif t == 5:
             steps, amt = model.infer(source=opt(op[1], objs), max_steps=op[2])
             res.append([steps, fr(amt), dump(objs)])
+        elif t == 6:
+            model.set_query(objs[op[1]], converge=bool(op[2]))
+            res.append([dump(objs)])
         elif t == 7:
             model.reset_bounds()
             res.append([dump(objs)])
@@ -113,4 +116,9 @@ def k3(args):
     return run_ops(model, objs, ops)
 
 
-HANDLERS = {3: k3}
+def k4(args):
+    kbs, roots1, roots2, data, ops1, ops2 = args[:6]
+    return [k3([kbs, roots1, data, ops1]), k3([kbs, roots2, data, ops2])]
+
+
+HANDLERS = {3: k3, 4: k4}
